@@ -231,8 +231,13 @@ def render(prog, reset=None, entity="T", on_reset=False, c04=False):
         out.append("        @std.sequential(std.Clock(self.clk))")
     else:
         sc = ", step_cond=lambda: self.en" if reset.get("step_cond") else ""
-        out.append(f"        @std.sequential(std.Clock(self.clk), std.Reset(self.rst, is_async={reset['is_async']}, "
-                   f"active_low={reset['active_low']}){sc}{onr})")
+        if reset.get("with_params"):
+            out.append(f"        base_ctx = std.SequentialContext(std.Clock(self.clk), std.Reset(self.rst, is_async={reset['is_async']}, "
+                       f"active_low={reset['active_low']}){onr})")
+            out.append("        @base_ctx.with_params(step_cond=lambda: self.en)")
+        else:
+            out.append(f"        @std.sequential(std.Clock(self.clk), std.Reset(self.rst, is_async={reset['is_async']}, "
+                       f"active_low={reset['active_low']}){sc}{onr})")
     out.append("        async def proc():")
     out.append("            nonlocal v")
     out += block(f.top, 3, "self")
